@@ -169,4 +169,193 @@ theorem run_autoInv (s : S) (ops : List Op) (h : AutoInv s) : AutoInv (run s ops
   | nil => exact h
   | cons op ops ih => exact ih _ (step_autoInv s op h)
 
+
+/-! ## list primitives -/
+
+/-- where Python's `list.insert(k, x)` puts `x` in a list of length `n`: `k` itself when
+`0 ≤ k ≤ n`, the end when `k > n`, `n + k` when `-n ≤ k < 0`, the front when `k < -n` -/
+def insertPos (n : Nat) (k : Int) : Nat := if 0 ≤ k then min k.toNat n else (k + n).toNat
+
+theorem insertPos_le (n : Nat) (k : Int) : insertPos n k ≤ n := by
+  unfold insertPos; split <;> omega
+
+theorem pyInsert_eq (l : List α) (k : Int) (x : α) :
+    pyInsert l k x = l.take (insertPos l.length k) ++ x :: l.drop (insertPos l.length k) := by
+  have h : (if k < 0 then (if k + (l.length : Int) < 0 then 0 else k + (l.length : Int))
+      else (if k > (l.length : Int) then (l.length : Int) else k)).toNat = insertPos l.length k := by
+    unfold insertPos; split <;> split <;> (try split) <;> omega
+  simp only [pyInsert, h]
+
+/-- `new` is `old` with exactly one element `x` added at position `j` -/
+theorem inserted_frame (old : List α) (j : Nat) (x : α) (hj : j ≤ old.length) :
+    let new := old.take j ++ x :: old.drop j
+    new.length = old.length + 1 ∧ new[j]? = some x ∧ new.eraseIdx j = old ∧
+    (∀ m, m < j → new[m]? = old[m]?) ∧ (∀ m, j ≤ m → new[m + 1]? = old[m]?) := by
+  intro new
+  have hl : (old.take j).length = j := by simp; omega
+  refine ⟨?_, ?_, ?_, ?_, ?_⟩
+  · simp [new]; omega
+  · simp [new, hl]
+  · simp only [new]
+    rw [List.eraseIdx_append_of_length_le (by omega)]
+    simp [hl]
+  · intro m hm
+    simp only [new]
+    rw [List.getElem?_append_left (by omega), List.getElem?_take_of_lt hm]
+  · intro m hm
+    simp only [new]
+    rw [List.getElem?_append_right (by omega), hl]
+    have : m + 1 - j = (m - j) + 1 := by omega
+    rw [this, List.getElem?_cons_succ, List.getElem?_drop]
+    congr 1; omega
+
+/-- the position Python's `list.pop(k)` removes from a list of length `n` (in range:
+`-n ≤ k < n`) -/
+def popPos (n : Nat) (k : Int) : Nat := if 0 ≤ k then k.toNat else (k + n).toNat
+
+theorem pyPop_in_range (l : List α) (k : Int) (h : -(l.length : Int) ≤ k ∧ k < l.length) :
+    pyPop l k = some (l.eraseIdx (popPos l.length k)) ∧ popPos l.length k < l.length := by
+  have h1 : (if k < 0 then k + (l.length : Int) else k).toNat = popPos l.length k := by
+    unfold popPos; split <;> split <;> omega
+  have h2 : ¬ ((if k < 0 then k + (l.length : Int) else k) < 0 ∨
+      (if k < 0 then k + (l.length : Int) else k) ≥ (l.length : Int)) := by
+    split <;> omega
+  refine ⟨?_, by unfold popPos; split <;> omega⟩
+  simp only [pyPop, h1, if_neg h2]
+
+theorem pyPop_out_of_range (l : List α) (k : Int) (h : k < -(l.length : Int) ∨ (l.length : Int) ≤ k) :
+    pyPop l k = none := by
+  have h2 : ((if k < 0 then k + (l.length : Int) else k) < 0 ∨
+      (if k < 0 then k + (l.length : Int) else k) ≥ (l.length : Int)) := by
+    split <;> omega
+  simp only [pyPop, if_pos h2]
+
+
+/-- what a list-level `insert_before` / `insert_after` turns one line into: the line
+alone when it does not match, otherwise the line with one copy of `x` before / after -/
+def expandLine (after : Bool) (x a : α) (m : Bool) : List α :=
+  if m then (if after then [a, x] else [x, a]) else [a]
+
+theorem insertAtMatches_nil_row (after : Bool) (x : α) (l : List α) :
+    insertAtMatches after x l [] = l := by cases l <;> rfl
+
+theorem insertAtMatches_eq_mapIdx (after : Bool) (x : α) (l : List α) (row : List Bool) :
+    insertAtMatches after x l row
+      = (l.mapIdx (fun i a => expandLine after x a (row.getD i false))).flatten := by
+  induction l generalizing row with
+  | nil => simp [insertAtMatches]
+  | cons a as ih =>
+    cases row with
+    | nil =>
+      have h := ih []
+      rw [insertAtMatches_nil_row] at h
+      simp only [List.getD_nil] at h
+      simp only [insertAtMatches, List.mapIdx_cons, List.flatten_cons, List.getD_nil, ← h]
+      simp [expandLine]
+    | cons b bs =>
+      simp only [insertAtMatches, List.mapIdx_cons, List.flatten_cons, List.getD_cons_zero,
+        List.getD_cons_succ, ih bs]
+      cases b <;> cases after <;> simp [expandLine]
+
+/-- the `List.flatMap` reading: line `a` at index `i` becomes `expandLine … a row[i]` -/
+theorem insertAtMatches_eq_flatMap (after : Bool) (x : α) (l : List α) (row : List Bool) :
+    insertAtMatches after x l row
+      = l.zipIdx.flatMap (fun p => expandLine after x p.1 (row.getD p.2 false)) := by
+  rw [insertAtMatches_eq_mapIdx, List.mapIdx_eq_zipIdx_map, List.flatMap_def]
+
+/-- number of lines of `l` whose row entry is true -/
+def matchCount (n : Nat) (row : List Bool) : Nat := (row.take n).count true
+
+theorem insertAtMatches_length (after : Bool) (x : α) (l : List α) (row : List Bool) :
+    (insertAtMatches after x l row).length = l.length + matchCount l.length row := by
+  induction l generalizing row with
+  | nil => simp [insertAtMatches, matchCount]
+  | cons a as ih =>
+    cases row with
+    | nil => simp [insertAtMatches, matchCount]
+    | cons b bs =>
+      have := ih bs
+      simp only [matchCount] at this ⊢
+      cases b <;> cases after <;> simp [insertAtMatches, this] <;> omega
+
+/-- the old lines survive, unchanged and in order -/
+theorem insertAtMatches_sublist (after : Bool) (x : α) (l : List α) (row : List Bool) :
+    l.Sublist (insertAtMatches after x l row) := by
+  induction l generalizing row with
+  | nil => simp [insertAtMatches]
+  | cons a as ih =>
+    cases row with
+    | nil => simp [insertAtMatches]
+    | cons b bs =>
+      have := ih bs
+      cases b <;> cases after <;> simp only [insertAtMatches, if_true, if_false, Bool.false_eq_true]
+      · exact this.cons_cons a
+      · exact this.cons_cons a
+      · exact (this.cons_cons a).cons x
+      · exact (this.cons x).cons_cons a
+
+/-- everything that is not a copy of the payload is untouched -/
+theorem insertAtMatches_filter [DecidableEq α] (after : Bool) (x : α) (l : List α) (row : List Bool) :
+    (insertAtMatches after x l row).filter (· ≠ x) = l.filter (· ≠ x) := by
+  induction l generalizing row with
+  | nil => simp [insertAtMatches]
+  | cons a as ih =>
+    cases row with
+    | nil => simp [insertAtMatches]
+    | cons b bs =>
+      have := ih bs
+      simp only [ne_eq, decide_not] at this
+      cases b <;> cases after <;> simp [insertAtMatches, List.filter_cons, this]
+
+theorem insertAtMatches_count [DecidableEq α] (after : Bool) (x : α) (l : List α) (row : List Bool) :
+    (insertAtMatches after x l row).count x = l.count x + matchCount l.length row := by
+  induction l generalizing row with
+  | nil => simp [insertAtMatches, matchCount]
+  | cons a as ih =>
+    cases row with
+    | nil => simp [insertAtMatches, matchCount]
+    | cons b bs =>
+      have := ih bs
+      simp only [matchCount] at this ⊢
+      cases b <;> cases after <;> simp [insertAtMatches, List.count_cons, this] <;> omega
+
+
+/-- `eraseAll` keeps exactly the positions that are not listed, in order -/
+theorem eraseAll_eq_filter (l : List α) (idxs : List Nat) :
+    eraseAll l idxs = (l.zipIdx.filter (fun p => !idxs.contains p.2)).map (·.1) := by
+  unfold eraseAll
+  generalize l.zipIdx = z
+  induction z with
+  | nil => rfl
+  | cons p ps ih =>
+    simp only [List.filterMap_cons, List.filter_cons]
+    cases h : idxs.contains p.2 <;> simp only [if_true, if_false, Bool.not_true, Bool.not_false,
+      Bool.false_eq_true, List.map_cons, ih]
+
+theorem eraseAll_sublist (l : List α) (idxs : List Nat) : (eraseAll l idxs).Sublist l := by
+  rw [eraseAll_eq_filter]
+  have h : ((l.zipIdx.filter (fun p => !idxs.contains p.2)).map (·.1)).Sublist (l.zipIdx.map (·.1)) :=
+    (List.filter_sublist).map _
+  simpa using h
+
+/-- erasing a duplicate-free set of valid positions shortens the list by their number -/
+theorem eraseAll_length (l : List α) (idxs : List Nat) (hn : idxs.Nodup) (hb : ∀ j ∈ idxs, j < l.length) :
+    (eraseAll l idxs).length + idxs.length = l.length := by
+  rw [eraseAll_eq_filter, List.length_map]
+  have h1 : (l.zipIdx.filter (fun p => !idxs.contains p.2)).length
+      = ((List.range' 0 l.length).filter (fun j => !idxs.contains j)).length := by
+    rw [← List.zipIdx_map_snd 0 l, List.filter_map, List.length_map]; rfl
+  have h2 : ((List.range' 0 l.length).filter (fun j => idxs.contains j)).Perm idxs := by
+    apply (List.perm_ext_iff_of_nodup ((List.nodup_range' (step := 1)).filter _) hn).mpr
+    intro j
+    simp only [List.mem_filter, List.mem_range'_1, List.contains_iff_mem]
+    constructor
+    · exact fun h => h.2
+    · exact fun h => ⟨⟨Nat.zero_le _, by have := hb j h; omega⟩, h⟩
+  have h3 := List.length_eq_countP_add_countP (l := List.range' 0 l.length) (fun j => idxs.contains j)
+  rw [h1, ← h2.length_eq]
+  simp only [List.length_range', List.countP_eq_length_filter] at h3
+  simp only [Bool.not_eq_true, Bool.decide_eq_false] at h3
+  omega
+
 end Ccp.Edit
